@@ -415,6 +415,14 @@ func runArrayProgram(e *arrEnv, nOps, sizeProf, posProf, opProf int) {
 			// a request that must be rejected: index past the end
 			k := e.rng.Intn(4)
 			i := uint64(n + 1 + e.rng.Intn(3))
+			// every third rejected request uses an index far outside: the largest index, 2^32, count + 2^32
+			// (i is the insert position; the other requests use i-1)
+			if e.step%3 == 0 {
+				i = []uint64{^uint64(0), 1 << 32, uint64(n) + 1<<32, 1<<32 + 1, 1 << 63}[(e.step/3)%5]
+				e.st.Hit("bad:huge-index")
+			}
+			// the tree and the pending write set immediately before the request
+			snapBefore := hx.DumpTree(e.ps, atree.VerifArrayRoot(e.arr)) + "\n" + deltaKeys(e.ps)
 			// every second rejected write carries a value too large to inline: a request that is
 			// refused must not have allocated a slab for its value first
 			badProf := sizeProf
@@ -446,12 +454,20 @@ func runArrayProgram(e *arrEnv, nOps, sizeProf, posProf, opProf int) {
 				if hx.ErrKind(err) != "IndexOutOfBounds:User" {
 					e.violation("C18", fmt.Sprintf("out-of-range request reported %s", hx.ErrKind(err)))
 				}
+				// ... and immediately after it: nothing may have moved, not even inside a slab that is
+				// already in the write set; the model compares its own tree with the same dump
+				if after := hx.DumpTree(e.ps, atree.VerifArrayRoot(e.arr)) + "\n" + deltaKeys(e.ps); after != snapBefore {
+					e.violation("C18", fmt.Sprintf("rejected request (kind %d, index %d, count %d) changed the array or the pending write set", k, i, n))
+				}
 			}
 			if k != 0 {
 				if len(e.rec.Effs) != 0 {
 					e.violation("C18", fmt.Sprintf("rejected request touched storage: %s", hx.NetEffect(e.rec.Effs)))
 				}
 				e.emitEffects()
+			}
+			if err != nil {
+				w.L("FULL h=0 %s", hx.DumpTree(e.ps, atree.VerifArrayRoot(e.arr)))
 			}
 		case "read":
 			k := e.rng.Intn(10)
